@@ -136,7 +136,8 @@ Record state := ST {
   w1 : w1pc; w2 : w2pc;
   run : rpc;
   ctx_done : bool;                 (* Run's context is cancelled *)
-  early_cancel : bool;             (* ghost: it was cancelled by the user before Close signalled *)
+  early_cancel : bool;             (* ghost: Run's context was cancelled by the user, or a handler's own context ended
+                                      (its loop goroutine finished), before Close signalled *)
   (* per handler *)
   lp : hid -> lpc;
   hc : hid -> hcpc;
@@ -366,8 +367,12 @@ Definition step (s : state) (l : label) : option state :=
       | LPubClose =>
           Some (s <| lp := upd (lp s) h LWgDone |> <| pub_closes := upd (pub_closes s) h (S (pub_closes s h)) |>)
       | LWgDone =>
+          (* handlersWg.Done(); ...; the goroutine ends: its deferred cancel() ends the handler's own context
+             (folded into this step; really it runs after the short handlersLock section) *)
           Some (s <| lp := upd (lp s) h LEnd |> <| handlersWg := pred (handlersWg s) |>
-                  <| panicked := panicked s || Nat.eqb (handlersWg s) 0 |>)
+                  <| panicked := panicked s || Nat.eqb (handlersWg s) 0 |>
+                  <| hstop := upd (hstop s) h true |>
+                  <| early_cancel := early_cancel s || negb (closingCh s) |>)
       | _ => None
       end
   | LDeliver h =>
